@@ -226,6 +226,8 @@ type proxyDir struct {
 	flips    map[int]*flipSpec // frame index (0-based) -> flip
 	ch       *chunker
 	hold     int // bytes held back to make chunks cross frame boundaries
+	holdAll  bool  // burst mode: frames are forwarded only when the writer has written all of them
+	cuts     []int // burst mode: sizes of the first chunks of the frame stream (the rest goes out as one write)
 	applied  []string
 	rawFirst bool // the upstream endpoint is the harness itself (malicious peer): forward verbatim
 }
@@ -235,9 +237,22 @@ func (p *proxyDir) run(wg *sync.WaitGroup) {
 	defer wg.Done()
 	var pending, queue []byte
 	downOK := true
+	unitNo := -1 // mirrors "unit" below for the flush closure
 	flush := func(all bool) {
+		if p.holdAll && unitNo >= 0 && !all {
+			return
+		}
 		for downOK && (len(queue) > p.hold || (all && len(queue) > 0)) {
 			n := p.ch.next(len(queue))
+			if p.holdAll && unitNo >= 0 {
+				n = len(queue)
+				if len(p.cuts) > 0 {
+					if p.cuts[0] < n {
+						n = p.cuts[0]
+					}
+					p.cuts = p.cuts[1:]
+				}
+			}
 			if _, err := p.down.Write(queue[:n]); err != nil {
 				downOK = false // the reader is gone: keep draining upstream so that the writer is not blocked
 			}
@@ -293,6 +308,7 @@ func (p *proxyDir) run(wg *sync.WaitGroup) {
 				flush(false)
 			}
 			unit++
+			unitNo = unit - 1
 		}
 		if cut {
 			flush(true)
@@ -421,10 +437,27 @@ func endpoint(conn *rlpx.Conn, dx *duplex, snap bool, out []msgT, res *sideResul
 	}()
 }
 
-func runCase(c caseT, r *rand.Rand, big bool) (a, b sideResult, info runInfo, msgsAB, msgsBA []msgT) {
+// burstPlan fixes the data dimensions of a run: the sender writes all messages back to back, the proxy
+// forwards nothing of the frame stream before the writer is done and then delivers it in the given
+// chunks (cuts), so that the tail of one frame and the beginning of the next arrive in the same read.
+type burstPlan struct {
+	snappy bool
+	msgsAB []msgT
+	cuts   []int
+	desc   string
+}
+
+func runCase(c caseT, r *rand.Rand, big bool, plans ...*burstPlan) (a, b sideResult, info runInfo, msgsAB, msgsBA []msgT) {
+	var plan *burstPlan
+	if len(plans) > 0 {
+		plan = plans[0]
+	}
 	keyA, _ := crypto.GenerateKey()
 	keyB, _ := crypto.GenerateKey()
 	snap := r.Intn(2) == 0
+	if plan != nil {
+		snap = plan.snappy
+	}
 	patterns := []string{"whole", "bytes", "small", "blocks", "mixed"}
 	pat := patterns[r.Intn(len(patterns))]
 	info = runInfo{Snappy: snap, Chunks: pat}
@@ -443,6 +476,15 @@ func runCase(c caseT, r *rand.Rand, big bool) (a, b sideResult, info runInfo, ms
 	var flipsAB, flipsBA map[int]*flipSpec
 	msgsAB, flipsAB = mk(c.FlipsAB)
 	msgsBA, flipsBA = mk(c.FlipsBA)
+	if plan != nil {
+		msgsAB, flipsAB = plan.msgsAB, map[int]*flipSpec{}
+		for i := range msgsAB {
+			msgsAB[i].wire = len(msgsAB[i].Payload)
+			if snap {
+				msgsAB[i].wire = len(snappy.Encode(nil, msgsAB[i].Payload))
+			}
+		}
+	}
 	for _, m := range msgsAB {
 		info.SizesAB = append(info.SizesAB, len(m.Payload))
 	}
@@ -459,6 +501,10 @@ func runCase(c caseT, r *rand.Rand, big bool) (a, b sideResult, info runInfo, ms
 	dxB := &duplex{r: p2bR, w: b2pW}
 	pAB := &proxyDir{name: "AB", up: a2pR, down: p2bW, msgs: msgsAB, flips: flipsAB, ch: &chunker{rand.New(rand.NewSource(r.Int63())), pat}, hold: r.Intn(40)}
 	pBA := &proxyDir{name: "BA", up: b2pR, down: p2aW, msgs: msgsBA, flips: flipsBA, ch: &chunker{rand.New(rand.NewSource(r.Int63())), pat}, hold: r.Intn(40)}
+	if plan != nil {
+		pAB.holdAll, pAB.cuts, pAB.ch.pattern = true, append([]int{}, plan.cuts...), "whole"
+		info.Chunks = plan.desc
+	}
 	if c.Auth.Flip != "none" {
 		pAB.hsFlip = &flipSpec{region: c.Auth.Flip, pick: r.Intn(1 << 20), bit: byte(r.Intn(8))}
 	}
@@ -586,6 +632,78 @@ func check(c caseT, a, b sideResult, msgsAB, msgsBA []msgT) []string {
 	dir("A->B", b, honestB, msgsAB, c.Expect.DlvAB, c.Expect.ErrAB, a)
 	dir("B->A", a, honestA, msgsBA, c.Expect.DlvBA, c.Expect.ErrBA, b)
 	return bad
+}
+
+// burstCases: no tampering. A frame larger than 256 KiB (and some just below) is followed immediately by
+// 1..3 small messages; everything is written before anything is forwarded, then delivered as one write or
+// in chunks that straddle the frame boundary by 1, 16, 4096 ... bytes. Every message must arrive intact
+// and in order (the read buffer carries the read-ahead bytes of the next frame over its reset).
+func burstCases(r *rand.Rand, sum *tl.Summary, seed int64) {
+	clean := caseT{Auth: pkt{Present: true, Flip: "none", Bad: "none"}, Ack: pkt{Present: true, Flip: "none", Bad: "none"},
+		FlipsAB: []string{}, FlipsBA: []string{},
+		Expect: expectT{HsA: "done", HsB: "done", LearnedA: "true", LearnedB: "true"}}
+	larges := []int{200000, 262144 - 64, 262144, 262144 + 1, 300000, 524288 + 7, 1 << 20}
+	straddles := []int{-1, 0, 1, 15, 16, 17, 31, 32, 33, 100, 1000, 4095, 4096, 4097, 9000}
+	for li, large := range larges {
+		for si, k := range straddles {
+			if (li+si+int(seed))%3 != 0 && k != -1 && k != 1 && k != 4096 { // a third of the grid per seed, the corner columns always
+				continue
+			}
+			snap := (li+si)%2 == 0
+			nsmall := 1 + r.Intn(3)
+			var msgs []msgT
+			if r.Intn(3) == 0 { // sometimes a small message first
+				msgs = append(msgs, genMsg(r, false, false, false))
+			}
+			big := make([]byte, large)
+			r.Read(big) // incompressible, so that the frame stays large with snappy
+			msgs = append(msgs, msgT{Code: codeClasses[r.Intn(len(codeClasses))], Payload: big})
+			firstLarge := len(msgs) - 1
+			for i := 0; i < nsmall; i++ {
+				m := genMsg(r, false, false, false)
+				if len(m.Payload) > 5000 {
+					m.Payload = m.Payload[:r.Intn(5000)]
+				}
+				msgs = append(msgs, m)
+			}
+			if r.Intn(4) == 0 { // a second large frame behind the small ones
+				big2 := make([]byte, 270000+r.Intn(1000))
+				r.Read(big2)
+				msgs = append(msgs, msgT{Code: 1, Payload: big2}, genMsg(r, false, false, false))
+			}
+			plan := &burstPlan{snappy: snap, msgsAB: msgs, desc: fmt.Sprintf("burst large=%d straddle=%d", large, k)}
+			// wire sizes are needed for the cut position: computed the same way runCase does
+			off := 0
+			for i := 0; i <= firstLarge; i++ {
+				m := msgs[i]
+				m.wire = len(m.Payload)
+				if snap {
+					m.wire = len(snappy.Encode(nil, m.Payload))
+				}
+				off += 32 + m.rsize() + 16
+			}
+			if k >= 0 {
+				plan.cuts = []int{off + k}
+			}
+			c := clean
+			c.FlipsAB = make([]string, len(msgs))
+			for i := range c.FlipsAB {
+				c.FlipsAB[i] = "none"
+			}
+			c.Expect.DlvAB = len(msgs)
+			a, b, info, mab, mba := runCase(c, r, false, plan)
+			sum.Evaluations++
+			sum.Steps += len(mab) + 2
+			sum.Count("burst")
+			sum.Distinct++
+			if bad := check(c, a, b, mab, mba); len(bad) > 0 {
+				sum.Violate("rlpx (no tampering, back-to-back frames): "+bad[0], tl.M{"run": info, "sizes": info.SizesAB, "all": bad, "seed": seed})
+			}
+			if (li*len(straddles)+si)%29 == 0 {
+				sum.Sample(tl.M{"burst": info})
+			}
+		}
+	}
 }
 
 // limitCases exercises the 24-bit size limit of a frame (rlpx.go: maxUint24) on a clean session.
@@ -826,6 +944,7 @@ func main() {
 				}
 			}
 		}
+		burstCases(r, sum, seed)
 		if *limit {
 			limitCases(r, sum)
 		}
